@@ -1,10 +1,13 @@
 import Woodpile.Driver.Util
 import Woodpile.Driver.ReadN
+import Woodpile.Driver.Stream
 
 open Woodpile.Driver
 
 def families : List (String × Family) := [
-  ("readn", ReadNFam.family)
+  ("readn", ReadNFam.family),
+  ("chunker", StreamFam.chunkerFamily),
+  ("reader", StreamFam.readerFamily)
 ]
 
 def main (args : List String) : IO UInt32 := do
